@@ -52,6 +52,9 @@ enum Extra {
     ViaMacro,
 }
 
+/// bodies with more fields than this get the sparse value set
+const WIDE_FROM: usize = 4;
+
 const ALL: [&str; 9] = ["Copy", "Clone", "Debug", "Default", "PartialEq", "Eq", "PartialOrd", "Ord", "Hash"];
 
 #[derive(Clone, Debug)]
@@ -252,9 +255,26 @@ fn gen_options(ch: &mut Ch, thorough: bool) -> Option<Case> {
     finish(ch, "options", shape, gopt, naming, extra, thorough)
 }
 
+/// G3: wide bodies - ten or more fields / variants (two-digit tuple indices, binding names, discriminant order)
+fn gen_wide(ch: &mut Ch, thorough: bool) -> Option<Case> {
+    let mut many = vec![vs(SKind::Unit, 0); 9];
+    many.push(vs(SKind::Tuple, 2));
+    many.push(vs(SKind::Named, 11));
+    many.push(vs(SKind::Unit, 0));
+    let shapes = vec![
+        Shape { is_enum: false, variants: vec![vs(SKind::Tuple, 13)] },
+        Shape { is_enum: false, variants: vec![vs(SKind::Named, 12)] },
+        Shape { is_enum: true, variants: many },
+        Shape { is_enum: true, variants: vec![vs(SKind::Tuple, 11), vs(SKind::Unit, 0)] },
+    ];
+    let shape = ch.of(&shapes).clone();
+    let gopt = *ch.of(&[GOpt::None, GOpt::T]);
+    finish(ch, "wide", shape, gopt, Naming::Neutral, Extra::None, thorough)
+}
+
 fn names(c: &Case) -> (String, Vec<String>, Box<dyn Fn(usize) -> String>) {
     match c.naming {
-        Naming::Neutral => ("X".to_string(), SHAPE_VNAMES.iter().map(|s| s.to_string()).collect(), Box::new(|i| fname(i))),
+        Naming::Neutral => ("X".to_string(), (0..c.shape.variants.len().max(SHAPE_VNAMES.len())).map(|i| if i < SHAPE_VNAMES.len() { SHAPE_VNAMES[i].to_string() } else { format!("V{i}") }).collect(), Box::new(|i| fname(i))),
         Naming::Prelude => ("Option".to_string(), vec!["Some".into(), "None".into(), "Ok".into(), "Err".into(), "Vec".into(), "Box".into()], Box::new(|i| fname(i))),
         Naming::Raw => ("r#type".to_string(), vec!["r#match".into(), "r#fn".into(), "r#loop".into(), "r#move".into(), "r#ref".into(), "r#use".into()], Box::new(|i| ["r#fn", "r#type", "r#struct", "r#impl"][i % 4].to_string())),
     }
@@ -285,15 +305,33 @@ fn item_and_values(c: &Case, module: &str) -> (String, Vec<String>) {
     for (vi, v) in sh.variants.iter().enumerate() {
         let doms: Vec<Vec<&'static str>> = (0..v.n).map(|fi| field_ty(c, vi, fi).1).collect();
         let mut idx = vec![0usize; v.n];
-        loop {
+        let path = if sh.is_enum { format!("{module}::{tname}::{}", vnames[vi]) } else { format!("{module}::{tname}") };
+        let mk = |idx: &[usize]| -> String {
             let args: Vec<String> = (0..v.n).map(|fi| doms[fi][idx[fi]].to_string()).collect();
-            let path = if sh.is_enum { format!("{module}::{tname}::{}", vnames[vi]) } else { format!("{module}::{tname}") };
-            let e = match v.kind {
-                SKind::Unit => path,
+            match v.kind {
+                SKind::Unit => path.clone(),
                 SKind::Tuple => format!("{}({})", path, args.join(", ")),
                 SKind::Named => format!("{} {{ {} }}", path, (0..v.n).map(|fi| format!("{}: {}", fnm(fi), args[fi])).collect::<Vec<_>>().join(", ")),
-            };
-            vals.push(e);
+            }
+        };
+        if v.n > WIDE_FROM {
+            // wide bodies: the full product is out of reach; all-first, every one-hot, every pair-hot of
+            // neighbours and all-last still tell WHICH field decided a comparison and where a field went
+            vals.push(mk(&idx));
+            for i in 0..v.n {
+                let mut one = idx.clone();
+                one[i] = 1;
+                vals.push(mk(&one));
+                if i + 1 < v.n {
+                    one[i + 1] = 1;
+                    vals.push(mk(&one));
+                }
+            }
+            vals.push(mk(&vec![1usize; v.n]));
+            continue;
+        }
+        loop {
+            vals.push(mk(&idx));
             let mut k = v.n;
             loop {
                 if k == 0 {
@@ -437,7 +475,7 @@ pub fn run(ctx: &Ctx, rep: &mut Report) {
     rep.rule = "terminal state = (struct/enum shape incl. enums without variants, generics option in {none, <T>, <'a, T>, <const N>, defaulted parameter, where-clause, T: ?Sized tail, f32 field}, naming in {neutral, raw identifiers for type / variants / fields}, extra attribute in {none, repr(C), non_exhaustive}, the traits derived by derive_ex [supertrait-closed lists: 9 single-trait closures, all nine, two groups] with the remaining applicable traits derived by the standard derive on the same type, entry point); oracle = a twin deriving everything with the standard derive; inner enumeration = every value / ordered pair of the product of the per-field domains x 14 format specs; distinct by program text; non-trivial = at least one field".into();
     rep.assumptions = vec!["shapes whose std-derived twin does not compile on its own are skipped (counted); for the others the combined program must compile and Clone/clone_from, Debug (14 specs), Default, ==, !=, partial_cmp, <, cmp agree with the twin on all values / pairs, Hash feeds are equal whenever == holds, and Copy is implemented".into()];
     let mut cases: Vec<Case> = Vec::new();
-    let gens: [(&str, fn(&mut Ch, bool) -> Option<Case>); 2] = [("shapes", gen_shapes), ("options", gen_options)];
+    let gens: [(&str, fn(&mut Ch, bool) -> Option<Case>); 3] = [("shapes", gen_shapes), ("options", gen_options), ("wide", gen_wide)];
     if let Some(p) = &ctx.replay {
         let v: serde_json::Value = serde_json::from_str(&std::fs::read_to_string(p).expect("replay file")).expect("replay json");
         let vec: Vec<usize> = v["case"]["vector"].as_array().unwrap().iter().map(|x| x.as_u64().unwrap() as usize).collect();
